@@ -518,18 +518,28 @@ def check_level_search(ctx, rep, f):
     # frontier replacement V = Vnext
     repl = [st for st in loop.body if isinstance(st, ast.Assign) and len(st.targets) == 1 and isinstance(st.targets[0], ast.Name) and isinstance(st.value, ast.Name)]
     brk = [st for st in loop.body if isinstance(st, ast.If) and any(isinstance(b, ast.Break) for b in st.body)]
-    if not repl or not brk:
+    if not repl:
         rep.undecided(RULE + '.level', f, loop, 'level-synchronous form not recognised')
         return
     nxt = repl[-1].value.id
     cur = repl[-1].targets[0].id
-    # exit only when the next frontier is empty
-    ok_exit = any(a[0] in ('truthy', 'empty') and a[1] == nxt and ((a[0] == 'truthy' and a[3] is False) or (a[0] == 'empty' and a[3] is True))
-                  for b in brk for a in atoms_of(b.test, True))
-    if ok_exit:
-        rep.holds(RULE + '.W4', f, brk[0], 'the search stops only when the next frontier {} is empty'.format(nxt))
+    header_form = not brk and any(a[0] in ('truthy', 'empty') and a[1] == cur and ((a[0] == 'truthy' and a[3] is True) or (a[0] == 'empty' and a[3] is False)) for a in atoms_of(loop.test, True)) \
+        and not (isinstance(loop.test, ast.BoolOp))
+    if not brk and not header_form:
+        rep.undecided(RULE + '.level', f, loop, 'level-synchronous form not recognised')
+        return
+    if header_form:
+        # while frontier: ...; frontier = next_frontier   -- the loop runs exactly as long as the frontier is not empty
+        rep.holds(RULE + '.W1', f, loop, 'frontier {} is replaced by the next frontier at the end of every round'.format(cur))
+        rep.holds(RULE + '.W4', f, loop, 'the search stops only when the frontier {} is empty'.format(cur))
     else:
-        rep.violates(RULE + '.W4', f, brk[0], 'the search stops on a condition other than "next frontier {} empty": reachable states can be missed'.format(nxt))
+        # exit only when the next frontier is empty
+        ok_exit = any(a[0] in ('truthy', 'empty') and a[1] == nxt and ((a[0] == 'truthy' and a[3] is False) or (a[0] == 'empty' and a[3] is True))
+                      for b in brk for a in atoms_of(b.test, True))
+        if ok_exit:
+            rep.holds(RULE + '.W4', f, brk[0], 'the search stops only when the next frontier {} is empty'.format(nxt))
+        else:
+            rep.violates(RULE + '.W4', f, brk[0], 'the search stops on a condition other than "next frontier {} empty": reachable states can be missed'.format(nxt))
     # additions to the next frontier are guarded by a not-seen test with marking
     adds = [st for st in _loop_stmts(loop) if isinstance(st, ast.Expr) and isinstance(st.value, ast.Call) and isinstance(st.value.func, ast.Attribute)
             and u(st.value.func.value) == nxt and st.value.func.attr == 'add']
@@ -958,3 +968,36 @@ def check_size_fixpoint(ctx, rep, f):
         else:
             rep.violates(RULE + '.W5', f, snaps[0], 'the size snapshot {0} = len({1}) is taken AFTER the pass that grows {1}: when the loop test compares {0} with len({1}) the two agree trivially, so only one pass is ever made and facts that need a second pass (a variable nullable only through a chain of other variables) are missed'.format(snap, coll))
     return done
+
+
+def check_single_expansion(ctx, rep, f, rule=RULE + '.W9'):
+    """a tree is built top-down from a worklist of nodes: the popped node gets its children from the FIRST alternative
+    (split point, rule) that fits.  Inside the loop over the alternatives every statement that adds children to the popped
+    node must be followed, on every path, by leaving that loop -- otherwise a node collects the children of several
+    alternatives and the tree is no longer a derivation."""
+    fx = ctx.facts(f)
+    cfg = fx.cfg
+    n = 0
+    for wl in [x for x in walk_no_nested(f.node) if isinstance(x, ast.While)]:
+        # names unpacked from the popped node
+        popped = set()
+        for st in wl.body:
+            if isinstance(st, ast.Assign) and isinstance(st.value, (ast.Call, ast.IfExp)) and any(isinstance(c, ast.Call) and isinstance(c.func, ast.Attribute) and c.func.attr == 'pop' for c in ast.walk(st.value)):
+                for t in st.targets:
+                    popped |= names_in(t)
+        if not popped:
+            continue
+        for inner in [x for x in ast.walk(wl) if isinstance(x, ast.For) and x is not wl]:
+            commits = [c for c in ast.walk(inner) if isinstance(c, ast.Expr) and isinstance(c.value, ast.Call) and isinstance(c.value.func, ast.Attribute)
+                       and c.value.func.attr in ('append', 'extend', 'add', 'insert') and isinstance(c.value.func.value, ast.Name) and c.value.func.value.id in popped]
+            if not commits:
+                continue
+            leaves = {cfg.n_of(x) for x in ast.walk(inner) if isinstance(x, (ast.Break, ast.Return, ast.Raise))}
+            header = cfg.n_of(inner)
+            n += 1
+            bad = [c for c in commits if header in cfg.reachable(cfg.n_of(c)) and not cfg.must_pass(leaves, header, start=cfg.n_of(c))]
+            if bad:
+                rep.violates(rule, f, bad[0], 'after {} the loop over the alternatives goes on: a node whose span can be split at two positions gets the children of both splits, so the derivation contains a step that is no rule of the grammar'.format(u(bad[0].value)))
+            else:
+                rep.holds(rule, f, inner, 'the loop over the alternatives is left right after the popped node received its children (one expansion per node)')
+    return n
